@@ -162,8 +162,15 @@ struct Program {
         if (r.closure) {
             ++C.closures;
             note("startC" + std::to_string(id));
-            if (rng.chance(500)) pool->start(Closure(id));
-            else pool->start(Closure(id), gLvalueArg);
+            unsigned how = (unsigned) rng.below(4);
+            if (how == 0) pool->start(Closure(id));
+            else if (how == 1) pool->start(Closure(id), gLvalueArg);
+            else {
+                // a named callable that goes out of scope (and is scribbled over) as soon as start() has returned:
+                // the pool must have taken its own copy
+                Closure named(id);
+                if (how == 2) pool->start(named); else pool->start(named, gLvalueArg);
+            }
         } else {
             note("start" + std::to_string(id));
             pool->start(new Task(id));
